@@ -496,9 +496,19 @@ def oracle_c03(sim, case):
         if event.get("all_present") and counts.get((ident, group)):
             later = [s for s in counts[(ident, group)] if s["i"] > event["i"]]
             if later:
-                yield Violation({"oracle": "executed-despite-present-states"},
+                # was a try of a worker that shares setup differently (another scope group) already started? then the
+                # examiner counted a foreign try as one of its own scope and "retried" (root cause of C01-F2..F4)
+                foreign = [s for s in sim.starts() if s["ident"] == ident and s["i"] < later[0]["i"]
+                           and scope_group(sim, s) != group]
+                sig = {"oracle": "executed-despite-present-states"}
+                if foreign:
+                    sig["after"] = (f"a try of a worker sharing per {scope_group(sim, foreign[0]).split(':')[0]} counted by an "
+                                    f"examiner sharing per {group.split(':')[0]}")
+                yield Violation(sig,
                                 f"{ident}: all its states were present at the first scan by {event['worker']} at t={event['t']} "
-                                f"yet it was executed by {[s['worker'] for s in later]} in scope {group}\n" + brief(sim), case)
+                                f"yet it was executed by {[s['worker'] for s in later]} in scope {group}"
+                                + (f" (after tries by {[s['worker'] for s in foreign]} of scope {scope_group(sim, foreign[0])})" if foreign else "")
+                                + "\n" + brief(sim), case)
 
 
 def oracle_c04(sim, case):
